@@ -100,7 +100,8 @@ def strip_case(case):
     out = {"program": {"features": feats, "outcomes": prog["outcomes"]}, "args": case["args"], "cfg": case["cfg"]}
     if prog.get("user_skip"):
         out["program"]["user_skip"] = prog["user_skip"]
-    for k in ("hook_fault", "cleanup_plan", "cafs"):
+    for k in ("hook_fault", "cleanup_plan", "cafs", "fail_fast", "raising_cleanup", "rerun_file", "flip_show_skipped", "runtime_switch",
+              "setup_logging_level", "log_habit"):
         if k in case:
             out[k] = case[k]
     return out
